@@ -80,6 +80,21 @@ CLAIMS = {
   text="Structural necessary conditions of lossless conversion: in SexpToGoStructs, SexpToGo, fillHashHelper and decodeGoToSexpHelper the arm for a kind without a conversion ends in an error or panic (three recorded findings where it does not); for every field type of the structs registered by RegisterDemoStructs/ImportDemoData record->Go has the arm of the carrying value type and Go->record has an arm for the Go type (five recorded findings, e.g. time.Time, pinned by the test suite); every recursive SexpToGoStructs/SexpToGo call passes the caller's dedup cache, which is read before and written after converting a record; a record field missing from the struct leads to the capitalised retry or a panic; the converters are reachable only behind the builtin recover barrier. Does not decide value equality after a trip, nor shared-object identity.",
   note="Trusts go/types for the struct field walk and go/ssa for the argument flow; demo-struct registration is read from the factory literals.",
   ref="DESIGN.md §3 C10"),
+ "C09": dict(
+  technique="abstract interpretation of the code generator's Go source over a domain of emission sequences (atoms, symbolic lengths, tail flag, scope counter) + template verification (tail transparency, scope accounting, tail-call shape)",
+  text="Structural necessary conditions of free and invisible tail calls, for all function bodies by induction over the generator: every sub-form compiled with the tail flag possibly set (and able to emit the tail jump, per a fixpoint over the generator's call sites) is followed in its generator only by scope removal, return or a jump proven to reach the end; the tail self-call is `arguments with the flag cleared, RemoveScope x gen.scopes, PrepareCall(same arity), RemoveScope, Goto 0`, emits no call instruction and is selected only under `tail flag && callee is the function being compiled`; the generator's scope counter equals the number of open non-function scopes wherever a sub-form, break or continue is compiled, is restored at the end of every form, and compiled functions are framed AddFuncScope ... RemoveScope Return. Does not decide memory at depth 10^5 or equality with an unoptimised run.",
+  note="Trusts go/types and the ES interpreter's model of the Go subset used by the emitters (it fails closed: unmodelled code is an undecided obligation). Two path-correlation exemptions in tables/C09.tsv.",
+  ref="DESIGN.md §2.3, §3 C09, Appendix F"),
+ "C04": dict(
+  technique="abstract interpretation of the code generator (emission sequences) + operand-stack / marker / scope simulation of every template, instruction-effect extraction from each Execute over go/ssa, builtin stack-neutrality summaries, bracket checks on Run/Load/eval",
+  text="Structural necessary conditions of `nothing left behind`, for all programs by induction over the generator: every emission sequence nets exactly one operand per form (zero per popped statement) on all control paths with consistent depths at joins, nests markers and stack marks properly, opens and closes scopes in pairs with the generator's counter in step; each instruction's Execute has exactly the operand effect the verifier assumes; builtin-shaped functions leave the interpreter's data stack as they found it (call machinery excepted); Run pops exactly one result, the resume pop is emitted only under !ReachedEnd(), eval truncates to its starting depth, address-stack and loop-stack pushes are paired with pops. Four recorded findings (include / source of several files, a splice as a whole template). Does not decide heap growth or depth after failed evaluations.",
+  note="Trusts go/types, go/ssa and the ES model (fails closed). Effects of data-dependent instructions (Squash, Call...) are table rows with a stated reason.",
+  ref="DESIGN.md §2.3, §3 C04, Appendices A and F"),
+ "C02": dict(
+  technique="abstract interpretation of the code generator with symbolic sequence lengths: every relative jump/branch/loop offset is checked to land on an atom boundary; operand-depth simulation; tail-position check; program-counter discipline of every Execute; dominance order of callee/arguments/call",
+  text="Structural necessary conditions of the reference semantics, for all programs by induction over the generator: all Jump/Branch offsets and the loop's break/continue offsets, computed as linear forms over the unknown lengths of sub-forms, equal the distance to a boundary of the emitted sequence (break on the cleanup, continue where the body's back-jump goes, the loop test's exit behind the back-jump); each form leaves one value and statements are separated by one pop on every path; tail jumps only in tail position; every Execute sets or advances pc exactly once on success; CallExprInstr evaluates the callee, resolves it, then CallResolved marshals the arguments (one evaluation and one push each, slice order) before any function is entered; variadic packing rejects too few arguments and pushes exactly one rest value. Does not decide values, truthiness, or which of several valid boundaries a jump targets.",
+  note="Trusts go/types, go/ssa and the ES model (fails closed).",
+  ref="DESIGN.md §2.3, §3 C02, Appendix F"),
 }
 NA_DEFAULT="rules not built yet (build in progress; see DESIGN.md §7)"
 NA = {}
